@@ -202,3 +202,18 @@ check('C10',
       'sequence runs, not in the theorem. After a set-up that raised, only set-ups that are handed their grid are compared. '
       'set_timegrid on a wrapper (scaled / structured asset) does not reach the wrapped assets and is not compared.',
       'Coq proof (state machine invariant over all operation sequences) + operation-sequence differential check on the implementation', 'DESIGN.md 5 C10')
+check('C11',
+      'The model is REGENERATED from /repo on every run: harness/classtable.py walks eaopack with ast and emits coq/ClassTable.v (per '
+      'class: constructor keywords incl. **kwargs forwarding, parameters without default, every attribute any method assigns to self, '
+      'the keys the serialiser pops; for Timegrid / Portfolio the keys written). Theorem C11_every_class_loadable (finite table, decided '
+      'by vm_compute): for every asset class every saved key is accepted by the constructor, every required parameter is saved, every '
+      'constructor parameter is stored under its own name and none is popped - except LinkedAsset, whose failure is proved '
+      '(C11_linked_asset_refuted) and listed as known finding; C11_timegrid_keys: start, end, frequency, main unit and time zone are '
+      'written and are constructor keywords. On the implementation every generated portfolio (all asset types of the generator in all '
+      'parameter forms, scaled assets with own life time, structured assets, order books; grids with freq != unit, three zones) plus '
+      'Plant, CHPAsset, LinkedAsset objects are saved, loaded and saved again, fresh and after a set-up: JSON equal, own grid equal '
+      '(points, zone, unit, dt), identical problems on the original and on a second grid.',
+      TB + 'The translator is trusted to read the sources correctly (fails closed on constructs it does not interpret: recorded as '
+      'c_problems and make the class not loadable). The JSON text layer and float repr round trip are trusted. A value-level codec '
+      'theorem is not part of this check.',
+      'Coq proof over a model generated from the source (ast translator) + round-trip oracle on the implementation', 'DESIGN.md 5 C11')
